@@ -37,9 +37,10 @@ def cmdC05 (args : List String) : IO (List String) := do
         | .rawCounts => return ["raw"]
         | .ok t =>
           let cs := dec counts
-          let rows := (List.zip t.tprt (List.zip t.ict t.space)).map (fun (p : Rat × Rat × Rat) =>
-            ",".intercalate (cs.map (fun c =>
-              showFloatOpt (btMasked (α := Float) co (chan == 3) (ratToFloat p.1) (ratToFloat p.2.2) (ratToFloat p.2.1) (ratToFloat c)))))
+          let tele : List (Float × Float × Float) := (List.zip t.tprt (List.zip t.ict t.space)).map
+            (fun (p : Rat × Rat × Rat) => (ratToFloat p.1, ratToFloat p.2.1, ratToFloat p.2.2))
+          let arr := calArray (α := Float) co (chan == 3) tele (tele.map (fun _ => cs.map ratToFloat))
+          let rows := arr.map (fun row => ",".intercalate (row.map showFloatOpt))
           return ["ok | " ++ showRats t.tprt ++ " | " ++ showRats t.ict ++ " | " ++ showRats t.space ++ " | " ++ ";".intercalate rows]
   | _ => return ["error bad-args"]
 end Driver
